@@ -379,9 +379,140 @@ Proof.
   rewrite takeN_all by exact Hft.
   rewrite (forallb_span (target_chars false) t Htall). cbn [fst].
   rewrite dropN_all by apply N.le_refl.
-  assert (Hmt : match t with [] => None | _ :: _ => Some (t, @nil N) end = Some (t, [])) by (destruct t; [congruence|reflexivity]).
-  rewrite Hmt.
-  assert (req_max_uri <? lenN t = false) as -> by (clear - Htlen; lia).
+  assert (Hlt : req_max_uri <? lenN t = false) by (clear - Htlen; lia).
+  clear Et. destruct t as [|ta tb]; [congruence|]. rewrite Hlt.
   eexists. split; [reflexivity|]. cbn [r_mimg r_mid r_uri r_http r_major r_minor set_code set_uri set_proto set_method].
   repeat split; reflexivity.
+Qed.
+
+(* ------------------------------------------------------------------ *)
+(* strict mode: the accepted HTTP/1+ lines are exactly the RFC lines    *)
+(* ------------------------------------------------------------------ *)
+Lemma strict_delim_is_sp c : cs_strict_Delimiter c = true -> c = 32.
+Proof.
+  intros H. destruct (c <? 256) eqn:Hc.
+  - assert (Hlt : c < 256) by lia.
+    pose proof (forallb_bytes (fun c => negb (cs_strict_Delimiter c) || (c =? 32))
+                  ltac:(vm_compute; reflexivity) c Hlt) as G.
+    cbv beta in G. rewrite H in G. cbn [negb orb] in G. lia.
+  - unfold cs_strict_Delimiter, mem_tbl in H. rewrite tbl_get_out in H by (vm_compute lenN; lia). discriminate.
+Qed.
+
+Lemma cr_is_13 c : cs_CR c = true -> c = 13.
+Proof.
+  intros H. destruct (c <? 256) eqn:Hc.
+  - assert (Hlt : c < 256) by lia.
+    pose proof (forallb_bytes (fun c => negb (cs_CR c) || (c =? 13)) ltac:(vm_compute; reflexivity) c Hlt) as G.
+    cbv beta in G. rewrite H in G. cbn [negb orb] in G. lia.
+  - unfold cs_CR, mem_tbl in H. rewrite tbl_get_out in H by (vm_compute lenN; lia). discriminate.
+Qed.
+
+Lemma one_elem {A} (l : list A) : lenN l = 1 -> exists x, l = [x].
+Proof. destruct l as [|x [|y r]]; cbn [lenN]; intros H; [lia|eauto|lia]. Qed.
+
+Lemma method_find_strict s tbl i img : method_find false s tbl = Some (i, img) -> img = s.
+Proof.
+  induction tbl as [|[j im] r IH]; cbn [method_find]; [discriminate|].
+  destruct (ci_eqb im s); [|exact IH].
+  destruct (list_eqb im s) eqn:E; [|exact IH].
+  intros H; inversion H; subst. apply list_eqb_eq. exact E.
+Qed.
+
+Lemma method_of_strict_image m : m <> [] -> snd (method_of false m) = m.
+Proof.
+  intros Hne. unfold method_of. destruct m as [|a r]; [congruence|].
+  destruct (method_find false (a :: r) req_methods) as [[i img]|] eqn:F; [|reflexivity].
+  cbn [snd]. eapply method_find_strict; exact F.
+Qed.
+
+Theorem strict_accepted_1x_is_rfc_line s line s' : fits line ->
+  parse_line false s line = (s', true) -> r_major s' <> 0 ->
+  exists m t d1 d2, rfc_request_line line m t d1 d2 /\
+    r_mimg s' = m /\ r_uri s' = t /\ r_major s' = d1 - 48 /\ r_minor s' = d2 - 48.
+Proof.
+  intros Hf H Hmaj.
+  destruct (parse_line_sound_1x false s line s' Hf H Hmaj) as (m & t & d1 & d2 & Hshape & Hmeth & Huri & _ & Hma & Hmi).
+  destruct Hshape as (ds1 & ds2 & crs & Hline & Hm & Hds1 & Ht & Hds2 & Hd1 & Hd2 & Hcrs).
+  destruct Hds1 as (_ & Hall1 & Hlen1). destruct (one_elem ds1 (Hlen1 eq_refl)) as [c1 ->].
+  destruct Hds2 as (_ & Hall2 & Hlen2). destruct (one_elem ds2 (Hlen2 eq_refl)) as [c2 ->].
+  destruct Hcrs as (Hallc & Hlenc). destruct (one_elem crs (Hlenc eq_refl)) as [c3 ->].
+  cbn [forallb delim] in Hall1, Hall2, Hallc. rewrite Bool.andb_true_r in Hall1, Hall2, Hallc.
+  apply strict_delim_is_sp in Hall1. apply strict_delim_is_sp in Hall2. apply cr_is_13 in Hallc. subst c1 c2 c3.
+  exists m, t, d1, d2. split; [split; [exact Hline|tauto]|].
+  split; [|tauto].
+  destruct Hm as (Hmne & _). rewrite <- (method_of_strict_image m Hmne). rewrite <- Hmeth. reflexivity.
+Qed.
+
+(* --- the full statement "strict accepts exactly the RFC 9112 request lines" is refuted: with an
+       HTTP/0.x (or multi-digit) version token the delimiter in front of it is not required --- *)
+Lemma count_sp_app a b : count_occ N.eq_dec (a ++ b) 32%N = (count_occ N.eq_dec a 32%N + count_occ N.eq_dec b 32%N)%nat.
+Proof. apply count_occ_app. Qed.
+
+Lemma rfc_line_two_sp line m t d1 d2 : rfc_request_line line m t d1 d2 -> (2 <= count_occ N.eq_dec line 32%N)%nat.
+Proof.
+  intros (Hline & _). subst line. rewrite !count_sp_app. cbn [count_occ].
+  destruct (N.eq_dec 32 32); [|congruence]. lia.
+Qed.
+
+(* "POST /xHTTP/0.9" CR : accepted as POST, target "/x", version 0.9 *)
+Definition quirk_line : bytes := [80;79;83;84;32;47;120;72;84;84;80;47;48;46;57;13].
+
+Theorem strict_accept_iff_grammar_refuted :
+  exists line s', parse_line false rst0 line = (s', true) /\
+    r_uri s' = [47;120] /\ r_major s' = 0 /\ r_minor s' = 9 /\
+    (forall m t d1 d2, ~ rfc_request_line line m t d1 d2) /\
+    (forall t, line <> [71;69;84;32] ++ t ++ [13]).
+Proof.
+  exists quirk_line. eexists. split; [vm_compute; reflexivity|].
+  split; [reflexivity|]. split; [reflexivity|]. split; [reflexivity|]. split.
+  - intros m t d1 d2 H. apply rfc_line_two_sp in H. vm_compute in H. lia.
+  - intros t H. vm_compute in H. inversion H.
+Qed.
+
+(* --- line isolation: the request line is what precedes the first LF --- *)
+Theorem first_line_of_line relaxed limit s line rest :
+  fits (line ++ 10 :: rest) -> line <> [] -> forallb (fun c => negb (c =? 10)) line = true -> lenN line < limit ->
+  first_line relaxed limit s (line ++ 10 :: rest) =
+  match parse_line relaxed s line with
+  | (s1, true) => (FLok, s1, rest)
+  | (s1, false) => (FLbad, s1, line ++ 10 :: rest)
+  end.
+Proof.
+  intros Hf Hne Hall Hlen. unfold first_line.
+  assert (FL : find_line (line ++ 10 :: rest) = Some (line, rest)).
+  { rewrite find_line_spec by exact Hf.
+    assert (Hs : span not_lf line = (line, [])).
+    { apply forallb_span. rewrite forallb_forall in *. intros y Hy. rewrite not_lf_spec. apply Hall. exact Hy. }
+    rewrite (span_app_all not_lf line (10 :: rest) line Hs). cbn [span]. rewrite not_lf_spec. cbn [N.eqb negb fst snd].
+    rewrite app_nil_r. destruct line; [congruence|reflexivity]. }
+  rewrite FL. assert (limit <=? lenN line = false) as -> by lia. reflexivity.
+Qed.
+
+(* --- the documented tolerances of the relaxed parser, as table facts --- *)
+Definition relaxed_tables_check (c : N) : bool :=
+  Bool.eqb (cs_relaxed_Delimiter c) ((c =? 32) || (c =? 9) || (c =? 11) || (c =? 12) || (c =? 13)) &&
+  Bool.eqb (cs_strict_Delimiter c) (c =? 32) &&
+  (negb (cs_strict_RequestTarget c) || cs_relaxed_RequestTarget c) &&
+  (negb (cs_relaxed_Delimiter c) || cs_relaxed_RequestTarget c) &&
+  (negb (cs_strict_RequestTarget c) || ((33 <=? c) && (c <=? 126))) &&
+  (negb (cs_relaxed_RequestTarget c) || negb ((c =? 10) || (c =? 0) || (c =? 127))).
+
+Theorem relaxed_tables : forall c, c < 256 ->
+  cs_relaxed_Delimiter c = ((c =? 32) || (c =? 9) || (c =? 11) || (c =? 12) || (c =? 13)) /\
+  cs_strict_Delimiter c = (c =? 32) /\
+  (cs_strict_RequestTarget c = true -> cs_relaxed_RequestTarget c = true) /\
+  (cs_relaxed_Delimiter c = true -> cs_relaxed_RequestTarget c = true) /\
+  (cs_strict_RequestTarget c = true -> 33 <= c <= 126) /\
+  (cs_relaxed_RequestTarget c = true -> c <> 10 /\ c <> 0 /\ c <> 127).
+Proof.
+  intros c Hc.
+  pose proof (forallb_bytes relaxed_tables_check ltac:(vm_compute; reflexivity) c Hc) as H.
+  unfold relaxed_tables_check in H.
+  repeat (apply andb_prop in H; let H' := fresh "H" in destruct H as [H H']).
+  apply Bool.eqb_prop in H. apply Bool.eqb_prop in H4.
+  split; [exact H|]. split; [exact H4|].
+  split; [intros K; rewrite K in H3; exact H3|].
+  split; [intros K; rewrite K in H2; exact H2|].
+  split; [intros K; rewrite K in H1; cbn [negb orb] in H1; lia|].
+  intros K; rewrite K in H0; cbn [negb orb] in H0. lia.
 Qed.
